@@ -6,7 +6,7 @@ import vpcore as v
 from vprun import Run
 import framing_common as fc
 
-SHAPE_SWEEPS = ["attr", "nlri", "open", "ex", "cap"]
+SHAPE_SWEEPS = ["attr", "ext", "nlri", "open", "ex", "cap"]
 
 
 def gen_mutations(run, msgs):
@@ -35,7 +35,7 @@ def main(run: Run):
     if run.replay:
         behs = run.replay_behaviours("mut")
     else:
-        fc.design(run, ["attr", "nlri", "other"] if thorough else ["nlri", "other"])
+        fc.design(run, ["attr", "ext", "nlri", "other"] if thorough else ["nlri", "other"])
         # 1. TLC-enumerated shapes -> real octets (the C04 replayer records them)
         shapes = []
         for sw in SHAPE_SWEEPS:
